@@ -215,8 +215,55 @@ type c36Edit struct {
 
 var c36WsForms = map[string]string{"sp2": "  ", "tab": "\t", "nl": "\n", "crlf": "\r\n", "mix": " \t\n "}
 var c36WsOrder = []string{"sp2", "tab", "nl", "crlf", "mix"}
-var c36CmtContent = map[string]string{"plain": "note", "quote": "it's", "digits": "42", "sql": "and x = 1"}
-var c36CmtContentOrder = []string{"plain", "quote", "digits", "sql"}
+// raw comment bodies: c36MlcBody goes between /* and */ (never begins with ! or +, never
+// contains */), c36LineBody between "--<blank>" or "#" and the line break.
+var c36MlcBody = map[string]string{
+	"plain": " note ", "quote": " it's ", "dquote": " say \"hi ", "bquote": " `x ", "digits": " 42 ", "sql": " and x = 1 ",
+	"empty": "", "star": "*", "slash": "/", "slash-lead": "/ c ", "slash-tail": " c /", "star-lead": "* c ", "star-tail": " c *",
+	"dash-lead": "- c ", "dashes": "-- c ", "hash-lead": "# c ", "quote-lead": "'c ", "quote-tail": " c'", "open-inside": " a /* b ",
+	"close-lookalike": " a * / b ", "stars": " a ** b ", "slashes": " a // b ", "newline": " line one\nline two ", "crlf": " a\r\n b ", "tight": "c",
+}
+var c36MlcBodyOrder = []string{"plain", "quote", "dquote", "bquote", "digits", "sql", "empty", "star", "slash", "slash-lead", "slash-tail", "star-lead", "star-tail",
+	"dash-lead", "dashes", "hash-lead", "quote-lead", "quote-tail", "open-inside", "close-lookalike", "stars", "slashes", "newline", "crlf", "tight"}
+var c36LineBody = map[string]string{
+	"plain": " note", "quote": " it's", "dquote": " say \"hi", "bquote": " `x", "digits": " 42", "sql": " and x = 1",
+	"empty": "", "star": "*", "slash": "/", "open-inside": " a /* b", "close-inside": " a */ b", "close-lead": "*/ c", "dashes": " a -- b", "dash-lead": "- c", "dash-tail": " c --",
+	"hash-lead": "# c", "hash-inside": " a # b", "quote-lead": "'c", "quote-tail": " c'", "stars": " a ** b", "slashes": "// c", "cr-tail": " c\r", "tight": "c",
+}
+var c36LineBodyOrder = []string{"plain", "quote", "dquote", "bquote", "digits", "sql", "empty", "star", "slash", "open-inside", "close-inside", "close-lead", "dashes", "dash-lead", "dash-tail",
+	"hash-lead", "hash-inside", "quote-lead", "quote-tail", "stars", "slashes", "cr-tail", "tight"}
+
+// c36CommentText renders the comment (without the blanks the form puts around it).
+func c36CommentText(form, content string) (string, bool) {
+	switch form {
+	case "mlc-spaced", "mlc-tight":
+		b, ok := c36MlcBody[content]
+		if !ok || strings.Index(b+"*/", "*/") != len(b) || strings.HasPrefix(b, "!") || strings.HasPrefix(b, "+") {
+			return "", false
+		}
+		return "/*" + b + "*/", true
+	case "dash":
+		b, ok := c36LineBody[content]
+		if !ok || strings.Contains(b, "\n") {
+			return "", false
+		}
+		return "-- " + b + "\n", true // the blank after the dashes is part of the opener
+	case "hash":
+		b, ok := c36LineBody[content]
+		if !ok || strings.Contains(b, "\n") {
+			return "", false
+		}
+		return "#" + b + "\n", true
+	}
+	return "", false
+}
+
+func c36CommentContents(form string) []string {
+	if form == "dash" || form == "hash" {
+		return c36LineBodyOrder
+	}
+	return c36MlcBodyOrder
+}
 var c36CmtForms = []string{"mlc-spaced", "mlc-tight", "dash", "hash"}
 var c36CaseStyles = []string{"upper", "capital", "alternate"}
 
@@ -299,21 +346,17 @@ func c36Render(toks []c36Tok, edits []c36Edit) (string, bool) {
 				g = " "
 			case "cmt":
 				form, content := c36Comment(e.Arg)
-				ct, okc := c36CmtContent[content]
+				ct, okc := c36CommentText(form, content)
 				if !okc {
 					return "", false
 				}
 				switch form {
 				case "mlc-spaced":
-					g = " /* " + ct + " */ "
+					g = " " + ct + " "
 				case "mlc-tight":
-					g = "/* " + ct + " */"
-				case "dash":
-					g = " -- " + ct + "\n"
-				case "hash":
-					g = " # " + ct + "\n"
-				default:
-					return "", false
+					g = ct
+				default: // dash, hash: a blank in front, the line break behind
+					g = " " + ct
 				}
 			}
 		}
@@ -394,7 +437,7 @@ func c36AllSingleEdits(toks []c36Tok) []c36Edit {
 			out = append(out, c36Edit{"optadd", i, ""})
 		}
 		for _, f := range c36CmtForms {
-			for _, c := range c36CmtContentOrder {
+			for _, c := range c36CommentContents(f) {
 				out = append(out, c36Edit{"cmt", i, f + ":" + c})
 			}
 		}
@@ -779,7 +822,7 @@ func c36Fingerprint(sql string) (fp string) {
 }
 
 func TestVerif_C36(t *testing.T) {
-	rec := kit.Start("C36", "exploration", "base statements from a SELECT/INSERT/UPDATE/DELETE description (cmp/in/between/like/is-null conditions, and/or, order by, limit) blacklisted in a real Namespace; equivalent variants = every single edit (white-space form, optional white space added/removed, comment form x content in every gap, keyword case, literal form per kind) plus random multi-edit variants; structural mutants of 12 kinds; non-trivial = distinct (edit class with neighbour kinds | mutation kind with statement shape, outcome)")
+	rec := kit.Start("C36", "exploration", "base statements from a SELECT/INSERT/UPDATE/DELETE description (cmp/in/between/like/is-null conditions, and/or, order by, limit) blacklisted in a real Namespace; equivalent variants = every single edit (white-space form, optional white space added/removed, 4 comment forms x 25/23 raw bodies (empty, leading/trailing / * - # quotes, /* and */ look-alikes, **, //, line breaks) in every gap, keyword case, literal form per kind) plus random multi-edit variants; structural mutants of 12 kinds; non-trivial = distinct (edit class with neighbour kinds | mutation kind with statement shape, outcome)")
 	rec.Assume("default sql_mode: \"...\" is a string literal; /*! */ and /*+ */ comments are not generated")
 	rec.Assume("normalisations the fingerprint documents on purpose (IN-list / VALUES-list length, ORDER BY ... ASC) are not used as mutants; != and <> are not used as each other's operator mutant")
 	defer rec.Finish(t)
@@ -946,7 +989,7 @@ func TestVerif_C36(t *testing.T) {
 	r := kit.SubRand(kit.Seed(), "C36/bases")
 	nBases := kit.N(300, 20000)
 	nReal := kit.N(300, 2000)
-	nExhaustive := kit.N(60, 20000)
+	nExhaustive := kit.N(60, 6000)
 	nMulti := 30
 	samples := 0
 	for bi := 0; bi < nBases; bi++ {
